@@ -622,15 +622,16 @@ def check_escaper(ck, L, fn, ORA):
                     if p[0] == 'lit':
                         out += p[1]
                     elif p[0] == 'arg':
-                        flags = p[2]
-                        # only the zero-padded 3-digit octal form is understood
+                        flags = p[2] or 0
+                        extra = p[3] or {}
                         tr = (s['args'] or [(None, None)])[p[1]][0]
-                        if tr == 'new_octal':
-                            out += '%03o' % ord(ch) if flags is not None else '%o' % ord(ch)
-                        elif tr == 'new_lower_hex':
-                            out += '%x' % ord(ch)
-                        else:
+                        digits = {'new_octal': '%o', 'new_lower_hex': '%x', 'new_upper_hex': '%X'}.get(tr)
+                        if digits is None or extra.get('precision') is not None or flags & (1 << 23):
                             return None
+                        txt = digits % ord(ch)
+                        if extra.get('width') is not None:
+                            txt = txt.rjust(extra['width'], '0' if flags & (1 << 24) else (chr(flags & 0x1fffff) or ' '))
+                        out += txt
         return out
 
     def matches(pat, ch):
@@ -649,10 +650,61 @@ def check_escaper(ck, L, fn, ORA):
         if k == 'POr':
             return any(matches(a, ch) for a in pat['alts'])
         return False
+    def guard_holds(g, ch):
+        """truth of an arm guard for character ch; None if the guard is not understood."""
+        g = H.strip_refs(g)
+        while g.get('k') in ('Paren', 'DropTemps'):
+            g = H.strip_refs(g['e'])
+        k = g.get('k')
+        if k == 'Unary' and g.get('op') == 'Not':
+            v = guard_holds(g['e'], ch)
+            return None if v is None else not v
+        if k == 'Binary' and g.get('op') in ('And', 'Or'):
+            a, b = guard_holds(g['l'], ch), guard_holds(g['r'], ch)
+            if a is None or b is None:
+                return None
+            return (a and b) if g['op'] == 'And' else (a or b)
+        if k == 'MCall' and not g['args'] and H.strip_refs(g['recv']).get('k') == 'Path':
+            tests = {'is_ascii': lambda c: ord(c) < 128, 'is_ascii_control': lambda c: ord(c) < 32 or ord(c) == 127,
+                     'is_control': lambda c: ord(c) < 32 or 127 <= ord(c) < 160, 'is_ascii_graphic': lambda c: 33 <= ord(c) <= 126,
+                     'is_ascii_alphanumeric': lambda c: ord(c) < 128 and c.isalnum(), 'is_ascii_digit': lambda c: c in '0123456789',
+                     'is_ascii_punctuation': lambda c: ord(c) < 128 and 33 <= ord(c) <= 126 and not c.isalnum(),
+                     'is_ascii_whitespace': lambda c: c in ' \t\n\x0c\r'}
+            t = tests.get(g.get('m'))
+            return t(ch) if t else None
+        if k == 'Binary' and g.get('op') in ('Lt', 'Le', 'Gt', 'Ge', 'Eq', 'Ne'):
+            def num(x):
+                x = H.strip_refs(x)
+                while x.get('k') == 'Cast':
+                    x = H.strip_refs(x['e'])
+                if x.get('k') == 'Path' and x.get('res') == 'local':
+                    return ord(ch)
+                if x.get('k') == 'Lit':
+                    v = x.get('v')
+                    return ord(v) if isinstance(v, str) and len(v) == 1 else (v if isinstance(v, int) else None)
+                return None
+            a, b = num(g['l']), num(g['r'])
+            if a is None or b is None:
+                return None
+            return {'Lt': a < b, 'Le': a <= b, 'Gt': a > b, 'Ge': a >= b, 'Eq': a == b, 'Ne': a != b}[g['op']]
+        return None
+
+    def select(ch):
+        for a in m['arms']:
+            if not matches(a['pat'], ch):
+                continue
+            if 'guard' in a:
+                v = guard_holds(a['guard'], ch)
+                if v is None:
+                    return None
+                if not v:
+                    continue
+            return a
+        return None
     bad = []
-    for code in list(range(0, 128)) + [0xe9, 0x200b, 0x1f600]:
+    for code in list(range(0, 128)) + [0x80, 0x9f, 0xa0, 0xe9, 0x7ff, 0x800, 0x200b, 0xd7ff, 0xe000, 0xfffd, 0xffff, 0x10000, 0x1f600, 0x10ffff]:
         ch = chr(code)
-        arm = next((a for a in m['arms'] if matches(a['pat'], ch)), None)
+        arm = select(ch)
         out = arm_output(arm, ch) if arm is not None else None
         if out is None:
             bad.append('U+%04X: not understood' % code)
@@ -662,7 +714,7 @@ def check_escaper(ck, L, fn, ORA):
     quote_wrapped = sum(1 for c in H.calls_in(fn['body']) if c.get('m') == 'push' and H.strip_refs(c['args'][0]).get('v') == '"' and not any(x is c for x in walk(loop))) == 2
     ok = not bad and quote_wrapped
     ck.ob('R16.1', 'cxx-escaper-table|%s' % short(fn['path']), ok, L.loc(m),
-          'all 128 ASCII characters and 3 non-ASCII samples are spelled as C++ escapes of themselves; the text is wrapped in one pair of quotes' if ok else
+          'all 128 ASCII characters and 14 non-ASCII samples (both sides of every UTF-8/UTF-16 length boundary) are spelled as C++ escapes of themselves; the text is wrapped in one pair of quotes' if ok else
           'characters spelled wrongly: %s%s' % (bad[:6], '' if quote_wrapped else '; not wrapped in exactly one pair of quotes'))
     return ok
 
@@ -678,5 +730,11 @@ def cxx_denotes(text, ch):
     mm = re.match(r'^\\([0-7]{3})$', text)
     if mm:
         return int(mm.group(1), 8) == ord(ch)      # exactly three octal digits never absorb what follows
+    # universal character names: exactly 4 (\u) or 8 (\U) hex digits; inside a string literal C++11..17 [lex.charset]/2 excludes
+    # only surrogates; a fifth digit after \uXXXX is the next character of the string
+    mm = re.match(r'^\\u([0-9a-fA-F]{4})$', text) or re.match(r'^\\U([0-9a-fA-F]{8})$', text)
+    if mm:
+        v = int(mm.group(1), 16)
+        return v == ord(ch) and not 0xd800 <= v <= 0xdfff and v <= 0x10ffff
     # \x.. absorbs following hex digits, 1-2 digit octal absorbs following octal digits, \u{..} is not C++17
     return False
